@@ -390,6 +390,12 @@ func loopHeaders(fn *ssa.Function) []*ssa.BasicBlock {
 // bodyPaths enumerates one generic iteration of fn's single loop: from the header (phis opaque) to a return or back
 // to the header.
 func bodyPaths(p *Program, fn *ssa.Function, t *Termer) (*ssa.BasicBlock, []*LPath, bool) {
+	return bodyPathsOpt(p, fn, t, false)
+}
+
+// bodyPathsOpt with later: one iteration that was reached through the back-edge (the first iteration is then the
+// business of whoever enumerates the function from its entry).
+func bodyPathsOpt(p *Program, fn *ssa.Function, t *Termer, later bool) (*ssa.BasicBlock, []*LPath, bool) {
 	hs := loopHeaders(fn)
 	var bind map[*ssa.Parameter]ssa.Value
 	if len(hs) == 0 {
@@ -404,7 +410,7 @@ func bodyPaths(p *Program, fn *ssa.Function, t *Termer) (*ssa.BasicBlock, []*LPa
 		return nil, nil, false
 	}
 	h := hs[0]
-	paths, ok := EnumLits(h, 0, TabOpts{Termer: t, EventOf: callEvents(p), InitBind: bind,
+	paths, ok := EnumLits(h, 0, TabOpts{Termer: t, EventOf: callEvents(p), InitBind: bind, StartHavoc: later,
 		Stop: func(in ssa.Instruction, ps *pathState) bool { return in == h.Instrs[0] && len(ps.Path) > 1 }})
 	return h, paths, ok
 }
